@@ -7,7 +7,8 @@ TraitDict with custom validators and on a Dict(CInt, Str) trait value with an
 """
 import itertools
 
-from traits.api import CInt, Dict, HasTraits, Str, TraitError
+from traits.api import (CInt, Dict, HasTraits, Str, TraitError, TraitType,
+                        Undefined)
 from traits.trait_dict_object import TraitDict
 
 LEVEL = "model_checking"
@@ -31,16 +32,28 @@ MIN_OUTCOMES = {t: ["event", "silent-noop", "nonempty-event-on-noop",
                 for t in ("quick", "thorough")}
 TIMEOUT = {"quick": 600, "thorough": 3000}
 
-MODES = ("id", "coerce", "reject", "owner")
+MODES = ("id", "coerce", "reject", "owner", "ownera")
+#: "ownera": the owner mode with a value trait that turns "a" into the
+#: library's Undefined and "b" into None (values that code paths written
+#: with `.get(key, Undefined)` or `is None` tests mistake for "absent")
+OWN = ("owner", "ownera")
 UNHASH = "__unhashable__"
+SENT = {"a": Undefined, "b": None}
+
+
+class Sentinels(TraitType):
+    def validate(self, object, name, value):
+        if not isinstance(value, str):
+            self.error(object, name, value)
+        return SENT.get(value, value)
 
 
 def kv_model(mode, k):
     if k == UNHASH:
-        if mode == "owner":
+        if mode in OWN:
             raise TraitError("bad key")       # CInt rejects a list
         return []
-    if mode in ("coerce", "owner") and isinstance(k, str):
+    if mode in ("coerce",) + OWN and isinstance(k, str):
         if k.isdigit():
             return int(k)
         raise TraitError("bad key")
@@ -52,8 +65,10 @@ def kv_model(mode, k):
 def vv_model(mode, v):
     if mode == "coerce" and isinstance(v, int):
         return str(v)
-    if mode == "owner" and not isinstance(v, str):
+    if mode in OWN and not isinstance(v, str):
         raise TraitError("bad value")
+    if mode == "ownera":
+        return SENT.get(v, v)
     if mode == "reject" and v == "bad":
         raise TraitError("bad value")
     return v
@@ -74,7 +89,7 @@ def validators(mode):
 def keys_for(mode):
     if mode == "id":
         return [1, 2, "1"], [1, 2, "1", 3]
-    if mode in ("coerce", "owner"):
+    if mode in ("coerce",) + OWN:
         return [1, 2], [1, 2, "1", 3, "x"]       # state keys, argument keys
     return [1, 2], [1, 2, "bad", 3]
 
@@ -82,7 +97,7 @@ def keys_for(mode):
 def vals_for(mode):
     if mode == "coerce":
         return ["a", "b"], ["a", "b", 7]
-    if mode == "owner":
+    if mode in OWN:
         return ["a", "b"], ["a", "b", 7]
     if mode == "reject":
         return ["a", "b"], ["a", "b", "bad"]
@@ -284,11 +299,11 @@ class Harness:
         self.rec = Rec()
         self.obs = []
         self.items = []
-        if mode == "owner":
+        if mode in OWN:
             obs, items = self.obs, self.items
 
             class Owner(HasTraits):
-                d = Dict(CInt, Str)
+                d = Dict(CInt, Str if mode == "owner" else Sentinels())
 
                 def __len__(self):
                     # collection-like model: falsy while its dict is empty
@@ -386,7 +401,7 @@ def step(ctx, h, ref, op, tag):
             err = check_event(before, after, evs[0])
             if err:
                 bad("event", err)
-            if mode == "owner":
+            if mode in OWN:
                 rm, ad, ch = evs[0]
                 if len(h.items) != 1:
                     bad("items-count", "%d _items events" % len(h.items))
@@ -406,7 +421,7 @@ def step(ctx, h, ref, op, tag):
                 if not (e[0] or e[1] or e[2]):
                     bad("empty-event", "nothing changed but an all-empty %s "
                         "event was emitted" % logname)
-    if mode == "owner":
+    if mode in OWN:
         # the observer's DictChangeEvent is the documented merge of the raw
         # notification: changed keys folded into removed (old) / added (new)
         if len(h.obs) != len(evs) or len(h.items) != len(evs):
@@ -473,6 +488,13 @@ def ops_for(mode, tier, light=False):
     return ops
 
 
+def init_ref(mode, st):
+    """model contents of a state given as [key, value token] pairs"""
+    if mode == "ownera":
+        return dict((k, SENT.get(v, v)) for k, v in st)
+    return dict((k, v) for k, v in st)
+
+
 def shards(tier):
     out = []
     for mode in MODES:
@@ -506,7 +528,7 @@ def run_shard(ctx, shard, tier):
                           "bare": bare})
                 ctx.ev()
                 h = Harness(mode, st, bare=bare)
-                ref = dict((k, v) for k, v in st)
+                ref = init_ref(mode, st)
                 step(ctx, h, ref, op, "all")
                 ctx.state((mode, list(ref.items())))
         ctx.sample({"mode": mode, "before": sts[-1], "op": ops[len(ops) // 3]})
@@ -521,7 +543,7 @@ def run_shard(ctx, shard, tier):
                     ctx.case({"mode": mode, "before": st, "ops": [op1, op2]})
                     ctx.ev()
                     h = Harness(mode, st)
-                    ref = dict((k, v) for k, v in st)
+                    ref = init_ref(mode, st)
                     if not step(ctx, h, ref, op1, "depth2"):
                         break
                     step(ctx, h, ref, op2, "depth2")
@@ -535,7 +557,7 @@ def replay(rec):
     case = rec["case"]
     mode = case["mode"]
     h = Harness(mode, case["before"], bare=case.get("bare", False))
-    ref = dict((k, v) for k, v in case["before"])
+    ref = init_ref(mode, case["before"])
     for op in case["ops"]:
         op = tuple(op)
         step(ctx, h, ref, op, "replay")
